@@ -11,6 +11,8 @@
 //!   ip4 <edst> <esrc> <src> <dst>                  inject an ICMPv4 echo request
 //!   ip6 <edst> <esrc> <src> <dst> <hop> echo | na <target> <ll|-> <ovr> | ns <target> <ll|->
 //!   rtdef4 <ip> | rtdef6 <ip> | rtrmdef4 | rtrmdef6 | rtpush <cidr> <via> <exp ms|-> | rtrm <idx> | rtclear
+//!   r154 <panok> <ldst> <lsrc> <src> <dst> <hop> echo | na .. | ns ..   (med=154: an 802.15.4 data frame with
+//!        an IPHC-compressed IPv6 packet; hardware addresses: extended = 64-bit value, short s = 2^64 + s)
 //!   poll <ms>
 //! Observations: `ok` (addrs), `rx` (frame queued), `ret <0|1>` (send / route ops), and per poll
 //!   tx arpreq <eth dst> <target> | tx arprep <eth dst> <target> | tx ns <eth dst> <target>
@@ -28,6 +30,7 @@ use svh::dev::QDev;
 use svh::*;
 
 const OWN_HW: u64 = 0x0200_0000_0001;
+const OWN_154: u64 = 0x0200_0000_0000_0001;
 const PAYLOAD: usize = 16; // every socket payload: b"C16!" + tag (u32 BE) + 8 filler bytes
 const ICMP_IN_IDENT: u16 = 0xee00;
 
@@ -74,6 +77,73 @@ fn hw_val(a: &EthernetAddress) -> u64 {
     a.0.iter().fold(0u64, |acc, b| (acc << 8) | *b as u64)
 }
 
+const OWN_PAN: u16 = 0xbeef;
+
+fn parse_hw128(s: &str) -> u128 {
+    u128::from_str_radix(s, 16).expect("hex hw")
+}
+/// model encoding of an 802.15.4 address: extended = the 64-bit value, short s = 2^64 + s
+fn ll154(v: u128) -> Ieee802154Address {
+    if v >> 64 == 0 {
+        Ieee802154Address::Extended((v as u64).to_be_bytes())
+    } else {
+        Ieee802154Address::Short((v as u16).to_be_bytes())
+    }
+}
+fn ll154_val(a: &Ieee802154Address) -> u128 {
+    match a {
+        Ieee802154Address::Extended(b) => u64::from_be_bytes(*b) as u128,
+        Ieee802154Address::Short(b) => (1u128 << 64) + u16::from_be_bytes(*b) as u128,
+        Ieee802154Address::Absent => 1u128 << 65,
+    }
+}
+fn ll154_raw(v: u128) -> RawHardwareAddress {
+    match ll154(v) {
+        Ieee802154Address::Extended(b) => RawHardwareAddress::from_bytes(&b),
+        Ieee802154Address::Short(b) => RawHardwareAddress::from_bytes(&b),
+        Ieee802154Address::Absent => RawHardwareAddress::from_bytes(&[]),
+    }
+}
+
+/// observation line for a frame transmitted on 802.15.4 (None: MLD housekeeping)
+fn classify154(frame: &[u8]) -> Option<String> {
+    let f = Ieee802154Frame::new_checked(frame).expect("154 frame");
+    let r = Ieee802154Repr::parse(&f).expect("154 repr");
+    let hw = ll154_val(&r.dst_addr.unwrap_or(Ieee802154Address::Absent));
+    let pl = f.payload().expect("154 payload");
+    match SixlowpanPacket::dispatch(pl).expect("6lowpan dispatch") {
+        SixlowpanPacket::IphcHeader => {}
+        SixlowpanPacket::FragmentHeader => return Some(format!("tx frag {:x}", hw)),
+    }
+    let ip = SixlowpanIphcPacket::new_checked(pl).expect("iphc");
+    let ir = SixlowpanIphcRepr::parse(&ip, r.src_addr, r.dst_addr, &[]).expect("iphc repr");
+    let dst = IpAddress::Ipv6(ir.dst_addr);
+    let body = ip.payload();
+    match ir.next_header {
+        SixlowpanNextHeader::Compressed => match SixlowpanNhcPacket::dispatch(body).expect("nhc") {
+            SixlowpanNhcPacket::UdpHeader => {
+                let u = SixlowpanUdpNhcPacket::new_checked(body).expect("udp nhc");
+                Some(format!("tx ip {:x} {} {}", hw, show_ip(&dst), tag_of(u.payload())))
+            }
+            SixlowpanNhcPacket::ExtHeader => None, // hop-by-hop + MLD report
+        },
+        SixlowpanNextHeader::Uncompressed(IpProtocol::Icmpv6) => {
+            let ic = Icmpv6Packet::new_checked(body).expect("icmpv6");
+            match ic.msg_type() {
+                Icmpv6Message::NeighborSolicit => {
+                    Some(format!("tx ns {:x} {}", hw, show_ip(&IpAddress::Ipv6(ic.target_addr()))))
+                }
+                Icmpv6Message::NeighborAdvert => Some(format!("tx ip {:x} {} -2", hw, show_ip(&dst))),
+                Icmpv6Message::EchoReply => Some(format!("tx ip {:x} {} -1", hw, show_ip(&dst))),
+                Icmpv6Message::EchoRequest => Some(format!("tx ip {:x} {} {}", hw, show_ip(&dst), tag_of(&body[8..]))),
+                Icmpv6Message::MldReport | Icmpv6Message::MldQuery => None,
+                _ => Some(format!("tx ip {:x} {} -9", hw, show_ip(&dst))),
+            }
+        }
+        SixlowpanNextHeader::Uncompressed(_) => Some(format!("tx ip {:x} {} {}", hw, show_ip(&dst), tag_of(body))),
+    }
+}
+
 fn payload(tag: u32) -> Vec<u8> {
     let mut p = b"C16!".to_vec();
     p.extend_from_slice(&tag.to_be_bytes());
@@ -99,6 +169,7 @@ struct World {
     /// raw sockets have no send_queue(): accepted minus transmitted, maintained from the wire
     raw_q: Vec<i64>,
     tag_sock: BTreeMap<i64, usize>,
+    is154: bool,
 }
 
 /// One frame the interface put on the wire, reduced to what the property talks about.
@@ -176,9 +247,17 @@ fn classify(frame: &[u8]) -> Tx {
 
 impl World {
     fn new(c: &Case) -> World {
-        let mut dev = QDev::new(Medium::Ethernet, 1514);
-        let hw = parse_hw(c.get("hw").unwrap_or("020000000001"));
-        let mut cfg = Config::new(HardwareAddress::Ethernet(eth(hw)));
+        let is154 = c.get("med") == Some("154");
+        let mut dev = if is154 { QDev::new(Medium::Ieee802154, 127) } else { QDev::new(Medium::Ethernet, 1514) };
+        let hwv = parse_hw128(c.get("hw").unwrap_or("020000000001"));
+        let mut cfg = if is154 {
+            Config::new(HardwareAddress::Ieee802154(ll154(hwv)))
+        } else {
+            Config::new(HardwareAddress::Ethernet(eth(hwv as u64)))
+        };
+        if is154 {
+            cfg.pan_id = Some(Ieee802154Pan(OWN_PAN));
+        }
         cfg.random_seed = 0x1234_5678;
         let iface = Interface::new(cfg, &mut dev, Instant::ZERO);
         let qcap = c.get_i("qcap", 4) as usize;
@@ -209,7 +288,7 @@ impl World {
             handles.push((ch, h));
         }
         let n = handles.len();
-        World { dev, iface, sockets, handles, qcap, raw_q: vec![0; n], tag_sock: BTreeMap::new() }
+        World { dev, iface, sockets, handles, qcap, raw_q: vec![0; n], tag_sock: BTreeMap::new(), is154 }
     }
 
     fn send(&mut self, k: usize, dst: IpAddress, tag: u32) -> bool {
@@ -323,6 +402,13 @@ impl World {
             out.push(tx);
         }
         out
+    }
+
+    /// 802.15.4: observation lines directly (no oracle on this medium)
+    fn poll154(&mut self, ms: i64) -> Vec<String> {
+        let now = Instant::from_millis(ms);
+        self.iface.poll(now, &mut self.dev, &mut self.sockets);
+        self.dev.drain_tx().iter().filter_map(|f| classify154(f)).collect()
     }
 
     fn poll_at(&mut self, ms: i64) -> Option<i64> {
@@ -449,6 +535,55 @@ fn build_rx(t: &[&str]) -> Vec<u8> {
             icmp.emit(&src, &dst, &mut Icmpv6Packet::new_unchecked(p.payload_mut()), &caps);
             b
         }
+        "r154" => {
+            let (panok, ldst, lsrc, src, dst, hop) =
+                (t[1] == "1", parse_hw128(t[2]), parse_hw128(t[3]), v6(t[4]), v6(t[5]), t[6].parse::<u8>().unwrap());
+            let icmp = match t[7] {
+                "echo" => Icmpv6Repr::EchoRequest { ident: ICMP_IN_IDENT, seq_no: 1, data: b"ping" },
+                "na" => Icmpv6Repr::Ndisc(NdiscRepr::NeighborAdvert {
+                    flags: if t[10] == "1" { NdiscNeighborFlags::OVERRIDE | NdiscNeighborFlags::SOLICITED } else { NdiscNeighborFlags::SOLICITED },
+                    target_addr: v6(t[8]),
+                    lladdr: if t[9] == "-" { None } else { Some(ll154_raw(parse_hw128(t[9]))) },
+                }),
+                "ns" => Icmpv6Repr::Ndisc(NdiscRepr::NeighborSolicit {
+                    target_addr: v6(t[8]),
+                    lladdr: if t[9] == "-" { None } else { Some(ll154_raw(parse_hw128(t[9]))) },
+                }),
+                x => panic!("bad r154 kind {}", x),
+            };
+            let pan = Ieee802154Pan(if panok { if ldst == (1u128 << 64) + 0xffff { 0xffff } else { OWN_PAN } } else { 0x1234 });
+            let ieee = Ieee802154Repr {
+                frame_type: Ieee802154FrameType::Data,
+                security_enabled: false,
+                frame_pending: false,
+                ack_request: false,
+                sequence_number: Some(7),
+                pan_id_compression: true,
+                frame_version: Ieee802154FrameVersion::Ieee802154_2003,
+                dst_pan_id: Some(pan),
+                dst_addr: Some(ll154(ldst)),
+                src_pan_id: Some(pan),
+                src_addr: Some(ll154(lsrc)),
+            };
+            let iphc = SixlowpanIphcRepr {
+                src_addr: src,
+                ll_src_addr: Some(ll154(lsrc)),
+                dst_addr: dst,
+                ll_dst_addr: Some(ll154(ldst)),
+                next_header: SixlowpanNextHeader::Uncompressed(IpProtocol::Icmpv6),
+                hop_limit: hop,
+                ecn: None,
+                dscp: None,
+                flow_label: None,
+            };
+            let mut b = vec![0u8; ieee.buffer_len() + iphc.buffer_len() + icmp.buffer_len()];
+            let (h, rest) = b.split_at_mut(ieee.buffer_len());
+            ieee.emit(&mut Ieee802154Frame::new_unchecked(h));
+            let (ih, body) = rest.split_at_mut(iphc.buffer_len());
+            iphc.emit(&mut SixlowpanIphcPacket::new_unchecked(ih));
+            icmp.emit(&src, &dst, &mut Icmpv6Packet::new_unchecked(body), &caps);
+            b
+        }
         x => panic!("bad rx op {}", x),
     }
 }
@@ -475,15 +610,19 @@ fn run_case(c: &Case, out: &mut dyn Write) {
                     let ok = w.send(t[1].parse().unwrap(), parse_ip(t[2]), t[3].parse().unwrap());
                     lines.push(format!("ret {}", ok as i64));
                 }
-                "arp" | "ip4" | "ip6" => {
+                "arp" | "ip4" | "ip6" | "r154" => {
                     w.inject(&t);
                     lines.push("rx".into());
                 }
                 "poll" => {
                     let ms: i64 = t[1].parse().unwrap();
-                    for tx in w.poll(ms) {
-                        if let Some(s) = show_tx(&tx) {
-                            lines.push(s);
+                    if w.is154 {
+                        lines.extend(w.poll154(ms));
+                    } else {
+                        for tx in w.poll(ms) {
+                            if let Some(s) = show_tx(&tx) {
+                                lines.push(s);
+                            }
                         }
                     }
                     let q: Vec<String> = w.qlens().iter().map(|x| format!(" {}", x)).collect();
@@ -727,6 +866,60 @@ impl<'a> Gen<'a> {
             format!("ip6 {} {} {} {} {} echo", edst, esrc, src, dst, self.rng.pick(&[64, 255, 1]))
         }
     }
+    /// 802.15.4 neighbor n: extended address (variant v: 0 genuine, 1 changed)
+    fn l154(n: u64, v: u64) -> String {
+        format!("{:x}", 0x0200_0000_0000_0100u64 + (v << 16) + n)
+    }
+    fn r154(&mut self, p: &Plan) -> String {
+        let n: u64 = if !self.recent6.is_empty() && self.rng.chance(3, 4) {
+            *self.rng.pick(&self.recent6.clone())
+        } else if self.rng.chance(1, 3) {
+            0xfe
+        } else {
+            self.rng.range(2, 20) as u64
+        };
+        let global = !p.addrs.iter().any(|a| a.starts_with("6.fe80")) || self.rng.chance(1, 8);
+        let mut src = if global { ip6(GU, n) } else { ip6(LL, n) };
+        let lsrc = Self::l154(n, if self.rng.chance(1, 10) { 1 } else { 0 });
+        let mut ll = Self::l154(n, if self.rng.chance(1, 8) { 1 } else { 0 });
+        let own = if global { ip6(GU, 1) } else { ip6(LL, 1) };
+        let mut dst = own.clone();
+        let mut hop = 255;
+        let mut target = src.clone();
+        let mut ldst = format!("{:x}", OWN_154);
+        let mut panok = 1;
+        let kind = self.rng.below(10);
+        if (6..9).contains(&kind) {
+            target = own.clone();
+            if self.rng.chance(1, 2) {
+                dst = ip6(0xff02_0000_0000_0000, 0x1_ff00_0001);
+                ldst = "1000000000000ffff".into();
+            }
+        }
+        match self.rng.below(30) {
+            0 => hop = 64,
+            1 => ll = "-".into(),
+            2 => ll = self.rng.pick(&["1000000000000ffff".to_string(), "10000000000001234".to_string()]).clone(),
+            3 => target = self.rng.pick(&[ip6(0xff02_0000_0000_0000, 1), ip6(0, 0), ip6(LL, 9)]).clone(),
+            4 => src = self.rng.pick(&[ip6(GU + 0xffff, 5), ip6(0, 0), ip6(0xff02_0000_0000_0000, 1), ip6(LL + 1, 7)]).clone(),
+            5 => dst = self.rng.pick(&[ip6(0xff02_0000_0000_0000, 1), ip6(LL, 0x77), ip6(LL + 5, 0xabcd_0001), ip6(0, 1)]).clone(),
+            6 => panok = 0,
+            7 => ldst = self.rng.pick(&["200000000000077".to_string(), "1000000000000ffff".to_string(), "10000000000000042".to_string()]).clone(),
+            8 => {
+                dst = ip6(0xff02_0000_0000_0000, 1);
+                ldst = "1000000000000ffff".into();
+            }
+            _ => {}
+        }
+        self.last_fill = self.now;
+        let head = format!("r154 {} {} {} {} {} {}", panok, ldst, lsrc, src, dst, hop);
+        match kind {
+            0..=5 => format!("{} na {} {} {}", head, target, ll, self.rng.below(2)),
+            6..=8 => format!("{} ns {} {}", head, target, ll),
+            _ => format!("{} echo", head),
+        }
+    }
+
     fn route(&mut self, p: &Plan) -> String {
         let use4 = if p.v4 && p.v6 { self.rng.chance(1, 2) } else { p.v4 };
         let exp = match self.rng.below(4) {
@@ -762,17 +955,35 @@ impl<'a> Gen<'a> {
 }
 
 fn gen_case(rng: &mut Rng, id: String, tier: &str) -> Case {
-    let socks = rng.pick(&["u", "uu", "ui", "ur", "uir", "iru", "uuu", "i", "r"]).to_string();
+    gen_case_med(rng, id, tier, true)
+}
+
+/// `allow154`: one case in five runs on Medium::Ieee802154 (IPv6 only, UDP / ICMP sockets: a raw
+/// socket on that medium hits `todo!()` in dispatch_sixlowpan)
+fn gen_case_med(rng: &mut Rng, id: String, tier: &str, allow154: bool) -> Case {
+    let is154 = allow154 && rng.chance(1, 5);
+    let socks = if is154 {
+        rng.pick(&["u", "uu", "ui", "iu", "i", "uui"]).to_string()
+    } else {
+        rng.pick(&["u", "uu", "ui", "ur", "uir", "iru", "uuu", "i", "r"]).to_string()
+    };
     let qcap = rng.range(1, 5);
     let cfg = vec![
-        ("med".to_string(), "eth".to_string()),
-        ("hw".to_string(), format!("{:x}", OWN_HW)),
+        ("med".to_string(), if is154 { "154" } else { "eth" }.to_string()),
+        ("hw".to_string(), if is154 { format!("{:x}", OWN_154) } else { format!("{:x}", OWN_HW) }),
         ("cap".to_string(), smoltcp::config::IFACE_NEIGHBOR_CACHE_COUNT.to_string()),
         ("rcap".to_string(), smoltcp::config::IFACE_MAX_ROUTE_COUNT.to_string()),
         ("qcap".to_string(), qcap.to_string()),
         ("socks".to_string(), socks.clone()),
     ];
-    let mut plan = plans(rng);
+    let plans154 = |rng: &mut Rng| -> Plan {
+        if rng.chance(2, 3) {
+            Plan { addrs: vec![format!("{}/64", ip6(LL, 1))], v4: false, v6: true }
+        } else {
+            Plan { addrs: vec![format!("{}/64", ip6(LL, 1)), format!("{}/64", ip6(GU, 1))], v4: false, v6: true }
+        }
+    };
+    let mut plan = if is154 { plans154(rng) } else { plans(rng) };
     let mut ops = vec![format!("addrs {}", plan.addrs.join(" "))];
     let len = if tier == "thorough" { rng.range(8, 120) } else { rng.range(6, 60) };
     let mut g = Gen { rng, now: 0, recent4: vec![], recent6: vec![], last_req: 0, last_fill: 0, tag: 0, nsock: socks.len() };
@@ -790,6 +1001,10 @@ fn gen_case(rng: &mut Rng, id: String, tier: &str) -> Case {
         match g.rng.below(100) {
             0..=31 => {
                 let mut d = g.dst(&plan);
+                if is154 && g.rng.chance(1, 25) {
+                    // IPv4 destination on the IPv6-only medium: the socket finds no source address
+                    d = g.rng.pick(&[ip4(10, 0, 0, 2), ip4(255, 255, 255, 255), ip4(224, 0, 0, 1)]).clone();
+                }
                 g.tag += 1;
                 let extra = if g.rng.chance(1, 30) { 1 } else { 0 };
                 let s = g.rng.below(g.nsock as u64 + extra);
@@ -804,6 +1019,10 @@ fn gen_case(rng: &mut Rng, id: String, tier: &str) -> Case {
                 g.advance();
                 ops.push(format!("poll {}", g.now));
                 g.last_req = g.now;
+            }
+            62..=93 if is154 => {
+                let a = g.r154(&plan);
+                ops.push(a);
             }
             62..=76 => {
                 if plan.v4 {
@@ -832,7 +1051,7 @@ fn gen_case(rng: &mut Rng, id: String, tier: &str) -> Case {
                 ops.push(a);
             }
             _ => {
-                plan = plans(g.rng);
+                plan = if is154 { plans154(g.rng) } else { plans(g.rng) };
                 ops.push(format!("addrs {}", plan.addrs.join(" ")));
             }
         }
@@ -1353,6 +1572,10 @@ fn run_oracle(cases: &[Case], out: &mut dyn Write, emit_cases: bool) {
     let mut stats = BTreeMap::new();
     let mut done = 0;
     for c in cases {
+        if c.get("med") == Some("154") {
+            // the trace oracle reads Ethernet frames; 802.15.4 cases are covered by the correspondence only
+            continue;
+        }
         let before = fails.len();
         oracle_case(c, &mut fails, &mut stats);
         done += 1;
@@ -1394,7 +1617,7 @@ fn main() {
         }
         "oracle" => {
             let mut rng = Rng::new(seed ^ 0xC16C16);
-            let cases: Vec<Case> = (0..n).map(|i| gen_case(&mut rng, format!("o{}-{}", seed, i), &tier)).collect();
+            let cases: Vec<Case> = (0..n).map(|i| gen_case_med(&mut rng, format!("o{}-{}", seed, i), &tier, false)).collect();
             run_oracle(&cases, &mut out, true);
         }
         "oracle-replay" => run_oracle(&stdin_cases(), &mut out, false),
